@@ -27,7 +27,7 @@ def gen_cases(ctx, tag="MC_VE"):
         per = 4
     else:
         shapes = ["single", "pair", "two_isolated", "chain3", "fork3", "collider3", "pair_iso", "diamond", "collider_desc",
-                  "two_comp", "family3", "fork4", "mshape"]
+                  "two_comp", "family3", "fork4", "mshape", "fam3two"]
         per = 2
     insts = instances.bn_instances(ctx.seed, shapes, per)
     add_virts(insts, rng, per=2)
@@ -198,10 +198,12 @@ def replay_gen(payload):
             configs = [tuple(payload["force"])]
         if not virt and ci % 4 == 0 and not payload.get("force"):
             ncalls += _extra_api(model, conc, inst, case, ev, Q, fails, payload, hs)
+        evd = conc.ev(ev)          # ONE caller-owned evidence dict for all configurations of this case (it must come back unchanged)
+        evd0 = dict(evd)
         for kind, order, joint in configs:
             eng = shared      # one engine per instance for ALL queries (a stale cache / re-bound model must not change answers)
             qv = [conc.vn[v] for v in rng.sample(Q, len(Q))]
-            kw = dict(variables=qv, evidence=conc.ev(ev) or None, elimination_order=order, joint=joint, show_progress=False)
+            kw = dict(variables=qv, evidence=evd or None, elimination_order=order, joint=joint, show_progress=False)
             if virt:
                 kw["virtual_evidence"] = make_virtual(inst, conc, virt)
             feat = {"order": str(order) if kind == "heur" else "explicit", "joint": joint, "virt": bool(virt), "state_kind": "any"}
@@ -217,6 +219,9 @@ def replay_gen(payload):
             except Exception as ex:  # noqa
                 fail("query.raises", repr(ex)[:300], None)
                 continue
+            if evd != evd0:
+                fail("evidence_argument_changed", {repr(k): repr(v) for k, v in evd.items()}, None)
+                break
             if joint:
                 d = check_factor(res, conc, inst, Q, case["post"], case["tot"])
                 if d:
